@@ -79,7 +79,13 @@ func (r *Report) Check(ok bool, rule, key, pos, okDetail, badDetail string) bool
 
 // Floor: the rule must have produced at least n obligations (discharged+violated+control),
 // else the check is broken (vacuity guard).
+// Floor guards against a rule that matches nothing (or far less than what was confirmed by reading).
+// Counts of sites legitimately shrink under refactoring (a dereference hoisted into a local, two arms
+// merged), so floors of 6 and more are enforced at two thirds of the confirmed count; small floors are exact.
 func (r *Report) Floor(rule string, n int, note string) {
+	if n >= 6 {
+		n = (2*n + 2) / 3
+	}
 	r.floors[rule] = n
 	r.floorsNote[rule] = note
 }
